@@ -276,10 +276,16 @@ Definition vela_hardswish_entry (zp_in zp_out out_scale out_shift relu_scale rel
 
 (* ---------------------------------------------------------------------------------------------
    NumPy-2 evaluation of shift_left16 when `a` arrives as np.int16 (convert_hardswish_to_lut passes
-   np.int16(input_value_hires)): in `a * (1 << offset)` the Python int is converted to int16 (OverflowError
-   when it does not fit) and the product wraps in int16 (RuntimeWarning only); the two saturation tests then
-   never fire.  Tied to the real function by correspondence (CMD shl16np). *)
-Definition np_shift_left16_int16 (a offset : Z) : option Z :=
+   np.int16(input_value_hires)).
+   Code as it exists now (/repo d51cb08): `shifted = int(a) * (1 << offset)` -- the operand is widened to a Python
+   int first, so the evaluation on an np.int16 operand IS the Python-int evaluation, i.e. the translated function.
+   Tied to the real function on np.int16 operands by correspondence (CMD shl16np). *)
+Definition np_shift_left16_int16 (a offset : Z) : option Z := GenFpMath.shift_left16 a offset.
+
+(* The expression before d51cb08, `shifted = a * (1 << offset)` with a : np.int16: the Python int is converted to
+   int16 (OverflowError when it does not fit) and the product wraps in int16 (RuntimeWarning only); the two
+   saturation tests then never fire.  Kept as the record of the repaired defect. *)
+Definition np_shift_left16_int16_old (a offset : Z) : option Z :=
   if offset >=? 0 then
     if in_int 16 a then
       obind (chk_int 16 (Z.shiftl 1 offset)) (fun k =>
